@@ -222,6 +222,14 @@ def handleOk (lp : Bytes) (pre post : Layer) (L : LDef) (obs : TObs) (log : List
           sameSboms post.sboms pre.sboms && keepDirOk d0 d && readBackOk lp d applied
       | _, _, _ => false
 
+/-- the decidable condition that excludes exactly the known deviation: the call does not keep a layer whose stored
+metadata has keys the layer's metadata type does not know (keep re-writes the metadata as decoded, dropping them) -/
+def keepDropsNothing (pre : Layer) (L : LDef) : Bool :=
+  L.strategy != .keep ||
+    match classify pre L.mt with
+    | .valid m => seenAs L.mt m == m
+    | _ => true
+
 /-- the layer's location, with the layers directory written `$L` (the harness canonicalises the temp path) -/
 def layerPathOf (n : Bytes) : Bytes := [36, 76, 47] ++ n
 
